@@ -604,21 +604,22 @@ def judge(ctx, pid, sessions, verdict, ops, what):
 OP_OWNER = {"getattr": "C18", "setattr": "C18", "delattr": "C18", "setkey": "C18", "delkey": "C18", "appendchart": "C18",
             "removechart": "C18", "swapcharts": "C18", "setchartitem": "C18", "delchartitem": "C18", "setchartfield": "C18",
             "save": "C04", "reopen": "C04", "tossc": "C16", "tosm": "C17", "readnotes": "C07", "countnotes": "C09",
-            "readtiming": "C14", "timenotes": "C13"}
+            "readtiming": "C14", "timenotes": "C13", "writefile": "C04", "openfile": "C03", "mutatefile": "C05"}
 MC_INVS = ["InvTypeOK", "InvSaveReopen", "InvViews", "InvConvertRoundTrip"]
 MC_ACTIONS = {"edit": ["setkey", "delkey", "getattr", "setattr", "delattr", "appendchart", "removechart",
                        "readnotes", "countnotes", "readtiming"],
               "save": ["setkey", "save", "reopen", "appendchart"],
               "tossc": ["setkey", "tossc", "save", "reopen"],
               "tosm": ["setkey", "tosm", "save", "reopen"],
-              "timing": ["setkey", "delkey", "setattr", "appendchart", "timenotes"]}
+              "timing": ["setkey", "delkey", "setattr", "appendchart", "timenotes"],
+              "files": ["setkey", "writefile", "openfile", "mutatefile"]}
 
 
 def mc_cfg(fmt0, focus, items, charts, depth, emit):
-    invs = ["InvTypeOK", "InvTimesMonotone"] if focus == "timing" else MC_INVS
+    invs = ["InvTypeOK", "InvTimesMonotone"] if focus == "timing" else ["InvTypeOK", "InvFsNames"] if focus == "files" else MC_INVS
     return ("SPECIFICATION Spec\nCONSTANTS Fmt0 = \"%s\" Focus = \"%s\" MaxItems = %d MaxCharts = %d MaxDepth = %d DoEmit = %s\n"
             "VIEW View\nCONSTRAINT Bound\nACTION_CONSTRAINT Emit\n" % (fmt0, focus, items, charts, depth, "TRUE" if emit else "FALSE")
-            + "".join("INVARIANT %s\n" % i for i in invs) + ("PROPERTY SourceIsolation\n" if focus == "timing" else ""))
+            + "".join("INVARIANT %s\n" % i for i in invs) + ("PROPERTY SourceIsolation\n" if focus == "timing" else "PROPERTY FilesFrame\n" if focus == "files" else ""))
 
 
 class _Mismatch(Exception):
@@ -763,6 +764,47 @@ def replay_path(fmt0, rec):
                     got.append(d)
                 if got != o["res"]:
                     raise _Mismatch(at, "time_notes(%s) yields %s, the specification says %s" % (o["opt"], json.dumps(got)[:400], json.dumps(o["res"])[:400]))
+            elif op == "writefile":
+                if st.get("files") is None:
+                    st["files"] = _Files()
+                with open(st["files"].path(uncps(o["name"])), "w", encoding="utf-8", newline="") as f:
+                    sf.serialize(f)
+            elif op == "openfile":
+                try:
+                    new_sf = simfile.open(st["files"].path(uncps(o["name"])), strict=True)
+                    r = "ok"
+                except Exception as e:  # noqa
+                    new_sf, r = None, type(e).__name__
+                if r != o["res"]:
+                    raise _Mismatch(at, "simfile.open(%r): %s, the specification says %s" % (uncps(o["name"]), r, o["res"]))
+                if new_sf is not None:
+                    sf = new_sf
+            elif op == "mutatefile":
+                fl = st["files"]
+                kw = {}
+                if o["out"]:
+                    kw["output_filename"] = fl.path(uncps(o["out"]))
+                if o["bak"]:
+                    kw["backup_filename"] = fl.path(uncps(o["bak"]))
+                try:
+                    with simfile.mutate(fl.path(uncps(o["name"])), **kw) as m:
+                        for e in o["edits"]:
+                            if e["op"] == "setkey":
+                                m[uncps(e["k"])] = cc.fresh(e["v"])
+                            elif e["op"] == "setattr":
+                                setattr(m, uncps(e["name"]).lower(), cc.fresh(e["v"]))
+                            else:
+                                del m[uncps(e["k"])]
+                        if o["body"] == "CancelMutation":
+                            raise simfile.CancelMutation()
+                        if o["body"] == "KeyError":
+                            raise KeyError("from the body")
+                    r = "ok"
+                except Exception as e:  # noqa
+                    r = type(e).__name__
+                if r != o["res"]:
+                    raise _Mismatch(at, "simfile.mutate(%r, out=%r, backup=%r) with a body ending %s: %s, the specification says %s" % (
+                        uncps(o["name"]), uncps(o["out"]), uncps(o["bak"]), o["body"], r, o["res"]))
             elif op == "readtiming":
                 td = TimingData(sf)
                 got = [(Fraction(e.beat), Decimal(e.value)) for e in getattr(td, uncps(o["name"]).lower())]
@@ -772,12 +814,33 @@ def replay_path(fmt0, rec):
             else:
                 raise core.MachineryError("unknown op %s" % op)
         at = len(rec["hist"]) - 1
+        if rec.get("files") or st.get("files") is not None:
+            import os
+            fl = st.get("files")
+            have = sorted(os.listdir(fl.dir)) if fl is not None else []
+            want = sorted(uncps(f["n"]) for f in rec.get("files", []))
+            if have != want:
+                raise _Mismatch(at, "the files afterwards are %r, the specification says %r" % (have, want))
+            for f in rec.get("files", []):
+                name = uncps(f["n"])
+                try:
+                    got = simfile.open(fl.path(name), strict=True)
+                    gst, gobj = "ok", dict(cc.proj(got), fmt=cc.fmt_of(got))
+                except Exception as e:  # noqa
+                    gst, gobj = type(e).__name__, None
+                if gst != f["st"]:
+                    raise _Mismatch(at, "file %r opens with %s, the specification says %s" % (name, gst, f["st"]))
+                if gobj is not None and (gobj["fmt"] != f["fmt"] or {"items": gobj["items"], "charts": gobj["charts"]} != f["obj"]):
+                    raise _Mismatch(at, "file %r holds %s, the specification says %s %s" % (name, json.dumps(gobj)[:300], f["fmt"], json.dumps(f["obj"])[:300]))
         if after(sf) != rec["obj"]:
             raise _Mismatch(at, "state after the call is %s, the specification says %s" % (json.dumps(after(sf))[:400], json.dumps(rec["obj"])[:400]))
     except _Mismatch as m:
         return (m.at, m.what)
     except Exception as e:  # noqa
         return (at, "%s: %s" % (type(e).__name__, e))
+    finally:
+        if st.get("files") is not None:
+            st["files"].close()
     return None
 
 
@@ -820,7 +883,10 @@ def mc_system(ctx, pid, runs, ops=None):
                 continue
             at, what = bad
             op = r["hist"][at]["op"]
-            if OP_OWNER.get(op) != pid and (ops is None or op not in ops):
+            owner = OP_OWNER.get(op)
+            if op == "mutatefile" and r["hist"][at].get("body") != "normal":
+                owner = "C06"             # (a cancelled / raising block: C06's clause)
+            if owner != pid and (ops is None or op not in ops):
                 other += 1
                 continue
             calls = [{k: (uncps(x) if isinstance(x, list) and (not x or isinstance(x[0], int)) else x) for k, x in o.items()
@@ -839,6 +905,8 @@ MC_RUNS = {  # pid -> (quick runs, thorough runs): (fmt0, focus, MaxItems, MaxCh
     "C04": ([("sm", "save", 2, 1, 4), ("ssc", "save", 2, 1, 4)], [("sm", "save", 3, 2, 5), ("ssc", "save", 3, 1, 5)]),
     "C16": ([("sm", "tossc", 2, 1, 4)], [("sm", "tossc", 3, 1, 5)]),
     "C17": ([("ssc", "tosm", 2, 1, 3)], [("ssc", "tosm", 2, 1, 4)]),
+    "C05": ([("sm", "files", 2, 1, 3), ("ssc", "files", 2, 1, 3)], [("sm", "files", 2, 1, 4)]),
+    "C06": ([("sm", "files", 2, 1, 3), ("ssc", "files", 2, 1, 3)], [("sm", "files", 2, 1, 4)]),
     "C13": ([("sm", "timing", 2, 1, 4), ("ssc", "timing", 2, 1, 4)], [("sm", "timing", 3, 1, 5), ("ssc", "timing", 3, 1, 5)]),
     "C15": ([("ssc", "timing", 3, 1, 4)], [("ssc", "timing", 3, 1, 5)]),
     "C07": ([("sm", "edit", 1, 1, 3), ("ssc", "edit", 1, 1, 3)], [("sm", "edit", 2, 2, 4), ("ssc", "edit", 2, 1, 4)]),
